@@ -203,6 +203,24 @@ func checkC03(r *Result) {
 				staleB = ps.Render(s)
 			}
 		}
+		// the stamp has one writer: a second writer (genesis import, the Init handler, a query) could start the
+		// clock while minting is off, and the first minting block would then pay for the whole time since
+		{
+			var writers []string
+			for _, fn := range P.RepoFuncs {
+				for _, b := range fn.Blocks {
+					for _, in := range b.Instrs {
+						if st, ok := in.(*ssa.Store); ok {
+							if fa, ok := st.Addr.(*ssa.FieldAddr); ok && fieldName(fa.X.Type(), fa.Field) == "x/mint/types.Minter.PreviousBlockTime" {
+								writers = append(writers, FuncName(TopFunc(fn)))
+							}
+						}
+					}
+				}
+			}
+			sort.Strings(writers)
+			r.check(fmt.Sprint(writers) == "[x/mint.SetPreviousBlockTime]", "MINT-STAMP", "writers of Minter.PreviousBlockTime", "-", fmt.Sprintf("%v (reviewed: only SetPreviousBlockTime, which BeginBlocker reaches behind the Initialized gate)", writers))
+		}
 		r.check(mintNoStamp == "", "MINT-STAMP", "x/mint.BeginBlocker # minted => stamped at every success return", P.Pos(bb.Pos()), "a success path mints without refreshing PreviousBlockTime (the same interval would be minted again): "+mintNoStamp)
 		r.check(!(staleA != "" && staleB != ""), "MINT-STAMP", "x/mint.BeginBlocker # no stale stamp while uninitialised", P.Pos(bb.Pos()), fmt.Sprintf("while minting is not started the stamp is written on some blocks (%s) but not on others (%s): the first block after Init would mint the backlog since the stale stamp", staleA, staleB))
 		// MintCoins inside MintBlockProvision under PreviousBlockTime != nil
